@@ -36,6 +36,7 @@ void DataNode :: Init(const String & name, const ConstMessageRef & initData)
    _parent             = NULL;
    _depth              = 0;
    _maxChildIDHint     = 0;
+   _orderedCounter     = 0;
    _data               = initData;
    _cachedDataChecksum = INVALID_CACHED_CHECKSUM;
 }
@@ -55,6 +56,7 @@ void DataNode :: Reset()
    _parent             = NULL;
    _depth              = 0;
    _maxChildIDHint     = 0;
+   _orderedCounter     = 0;
    _data.Reset();
    _cachedDataChecksum = INVALID_CACHED_CHECKSUM;
 }
